@@ -433,6 +433,35 @@ func (r *Run) checkPartition(P string) {
 				}
 				if core.HasFact(at, "fail(ParseOperation(...))") && core.HasFact(at, "cmp(err(ParseOperation(...)) == operationparser.ErrOperationExpired)") {
 					okExp = true
+				} else if core.HasFact(at, "fail(ParseOperation(...))") {
+					// the sentinel test may sit in an earlier statement (`if e != nil && e != Expired { return }; if e != nil {…}`):
+					// then it holds on every feasible way through the iteration to this append, not as one dominating edge
+					if head := enclosingLoopHead(f, c.Block()); head != nil {
+						nWays, all := 0, true
+						for _, ip := range loopIterationPaths(ff, head, 4000) {
+							cut := -1
+							for i, b := range ip.Blocks {
+								if b == c.Block() {
+									cut = i
+									break
+								}
+							}
+							if cut < 0 {
+								continue
+							}
+							pf := rawPathFacts(ff, ip.Blocks[:cut+1])
+							if core.HasFact(pf, "ok(ParseOperation(...))") && core.HasFact(pf, "fail(ParseOperation(...))") {
+								continue // contradictory: the error cannot be nil at one test and non-nil at the next
+							}
+							nWays++
+							if !core.HasFact(pf, "cmp(err(ParseOperation(...)) == operationparser.ErrOperationExpired)") {
+								all = false
+							}
+						}
+						if nWays > 0 && all {
+							okExp = true
+						}
+					}
 				}
 			}
 		}
@@ -1105,8 +1134,14 @@ func (r *Run) checkWriterProofPresence(P string) {
 		good := len(writes) == 1
 		var det []string
 		nonEmpty := strings.Replace(sp.empty, "== 0)", "!= 0)", 1)
+		// the sum may be tested as such or list by list (`len(a) == 0 && len(b) == 0`)
+		var partsEmpty, partsNonEmpty []string
+		if strings.Contains(sp.empty, "+") {
+			partsEmpty = []string{"cmp(len($1) == 0)", "cmp(len($2) == 0)"}
+			partsNonEmpty = []string{"cmp(len($1) != 0)", "cmp(len($2) != 0)", "cmp(len($1) > 0)", "cmp(len($2) > 0)"}
+		}
 		for _, w := range writes {
-			if r.reachableWithout(ff, w, []string{nonEmpty}) {
+			if r.reachableWithout(ff, w, append([]string{nonEmpty}, partsNonEmpty...)) {
 				good = false
 				det = append(det, "the file is written although there are no entries that need it")
 			}
@@ -1129,8 +1164,16 @@ func (r *Run) checkWriterProofPresence(P string) {
 			}
 			nSkip++
 			if r.reachableWithout(ff, ri.Ret, []string{sp.empty}) {
-				good = false
-				det = append(det, "no file is written although entries need it")
+				listwise := len(partsEmpty) > 0
+				for _, pe := range partsEmpty {
+					if r.reachableWithout(ff, ri.Ret, []string{pe}) {
+						listwise = false
+					}
+				}
+				if !listwise {
+					good = false
+					det = append(det, "no file is written although entries need it")
+				}
 			}
 		}
 		r.R.Check(good && nSkip >= 1, P+".presence.writer."+strings.TrimPrefix(sp.fn, "OperationHandler."), "E8 sibling (writer ↔ reader presence table): "+sp.what, core.FuncName(f), r.where(f),
